@@ -232,6 +232,13 @@ func (twoLines) Print(n int) error {
 	return nil
 }
 
+// noLines is an element of a composite that has nothing to show.
+type noLines struct{}
+
+func (noLines) MinLines() int     { return 0 }
+func (noLines) MaxLines() int     { return 0 }
+func (noLines) Print(n int) error { return nil }
+
 func (x *exec) doRender(ev Ev) {
 	switch ev.V {
 	case "dis":
@@ -246,6 +253,11 @@ func (x *exec) doRender(ev Ev) {
 				var nested view.View
 				if _, _, p := core.Guard(func() { nested = view.NewComposite(x.s.emu.View(), twoLines{}) }); !p && nested != nil {
 					x.directRender("emulator-composite-nested", nested, ev.N)
+				}
+				// ... and next to an element that has nothing to show
+				var withEmpty view.View
+				if _, _, p := core.Guard(func() { withEmpty = view.NewComposite(x.s.emu.View(), noLines{}, twoLines{}) }); !p && withEmpty != nil && !x.stop {
+					x.directRender("emulator-composite-with-empty-element", withEmpty, ev.N)
 				}
 			}
 			// The register table declares a fixed height (what the
